@@ -32,8 +32,8 @@ pub const DIMS: [(&str, u8); NDIM] = [
     ("segLimit", 5),  // 0 none | 1 limit 1 on all route segments | 2 limit 2 on all | 3 limit 1 on direction-0 routes only | 4 limit 1 on the FIRST segment of direction-0 routes only (a second segment has none), limit 2 on direction-1 routes
     ("shunting", 5),  // (minimal, deadHead): 0 (0,0) | 1 (300,0) | 2 (0,300) | 3 (600,600) | 4 (900,0): staying put needs longer than a quick dead-head
     ("forbid", 2),    // forbidDeadHeadTrips: 0 absent | 1 true
-    ("depots", 10),   // 0 absent | 1 [] | 2 one depot cap 1 | 3 one depot cap 2 | 4 two depots cap 1 each | 5 total 5, per-type 1 | 6 type not listed | 7 two depots cap 5 | 8 two depots at the SAME location, cap 1 each | 9 one depot of total 2 where the first type has its own limit 1 and every other type is listed without one
-    ("maint", 7),     // 0 absent | 1 slot x1 track | 2 slot x2 tracks | 3 two slots | 4 slot overlapping/tying the trips | 5 slot but parameters.maintenance absent | 6 one slot x 4 tracks
+    ("depots", 11),   // 0 absent | 1 [] | 2 one depot cap 1 | 3 one depot cap 2 | 4 two depots cap 1 each | 5 total 5, per-type 1 | 6 type not listed | 7 two depots cap 5 | 8 two depots at the SAME location, cap 1 each | 9 one depot of total 2 where the first type has its own limit 1 and every other type is listed without one | 10 a depot of capacity 0 at L0 and a depot at L1 whose allowedTypes list is empty
+    ("maint", 8),     // 0 absent | 1 slot x1 track | 2 slot x2 tracks | 3 two slots | 4 slot overlapping/tying the trips | 5 slot but parameters.maintenance absent | 6 one slot x 4 tracks | 7 two slots at the same location that overlap in time
     ("maxDist", 4),   // 0 large (1000 km) | 1 binding (60 km) | 2 beyond the stand-in distance of the overflow depot (30 000 km, the value of the repository's sample input) | 3 a fifth of one trip (10 km): every track of every slot is handed out
     ("deadHeads", 6), // 0 symmetric | 1 asymmetric | 2 slower than a service trip | 3 three locations, non-metric | 4 very quick (60 s) | 5 three locations where L1 and L2 are the same place (0 s, 0 m apart) and direction-1 trips leave from L2
     ("costs", 6),     // 0 default | 1 all zero | 2 dead-head cheaper than service | 3 idle dominant | 4 idle three orders of magnitude above everything else | 5 the default coefficients x 10 000 (a finer currency unit): every schedule costs more than 2^32
@@ -328,6 +328,10 @@ impl Inst {
             0 => None,
             1 | 5 => Some(json!([{"id": "m0", "location": slot_loc, "start": fmt_time(6 * 3600), "end": fmt_time(7 * 3600), "trackCount": 1}])),
             6 => Some(json!([{"id": "m0", "location": slot_loc, "start": fmt_time(6 * 3600), "end": fmt_time(7 * 3600), "trackCount": 4}])),
+            7 => Some(json!([
+                {"id": "m0", "location": slot_loc, "start": fmt_time(6 * 3600), "end": fmt_time(7 * 3600), "trackCount": 1},
+                {"id": "m1", "location": slot_loc, "start": fmt_time(6 * 3600 + 1800), "end": fmt_time(7 * 3600 + 1800), "trackCount": 1}
+            ])),
             2 => Some(json!([{"id": "m0", "location": slot_loc, "start": fmt_time(6 * 3600), "end": fmt_time(7 * 3600), "trackCount": 2}])),
             3 => Some(json!([
                 {"id": "m0", "location": slot_loc, "start": fmt_time(6 * 3600), "end": fmt_time(7 * 3600), "trackCount": 1},
@@ -367,6 +371,11 @@ impl Inst {
             8 => Some(json!([
                 {"id": "dA", "location": "L0", "capacity": 1, "allowedTypes": all_types_unlimited},
                 {"id": "dB", "location": "L0", "capacity": 1, "allowedTypes": all_types_unlimited}
+            ])),
+            // depots that exist but can host nothing
+            10 => Some(json!([
+                {"id": "dA", "location": "L0", "capacity": 0, "allowedTypes": all_types_unlimited},
+                {"id": "dB", "location": "L1", "capacity": 5, "allowedTypes": []}
             ])),
             // mixed: the first type has its own limit, the others are listed without one; only the total binds them
             _ => {
